@@ -296,9 +296,21 @@ def _stream_kind(ctx, f, name_node):
     return _expr_kind(ctx, f, d)
 
 
-def _expr_kind(ctx, f, e):
-    if isinstance(e, ast.GeneratorExp) and len(e.generators) == 1:
+def _expr_kind(ctx, f, e, depth=0):
+    if isinstance(e, (ast.GeneratorExp, ast.ListComp)) and len(e.generators) == 1:
         g = e.generators[0]
+        if g.ifs:
+            # a filtering comprehension: ordinals no longer are positions
+            return FILTERED
+        if isinstance(g.iter, ast.Name) and depth < 4:
+            facts, _ = ctx.ty.facts_at(f, g.iter.id, g.iter)
+            kinds = {_expr_kind(ctx, f, fa.value, depth + 1) for fa in facts
+                     if fa.kind == "expr"}
+            if len(kinds) == 1:
+                return kinds.pop()
+            if kinds and kinds <= {RAW, LAZY}:
+                return RAW
+            return FILTERED if FILTERED in kinds else None
         k, base = iter_kind(ctx, f, g.iter)
         if k == RAW:
             return RAW
